@@ -134,6 +134,44 @@ fn generated_case(ctx: &Ctx, ch: &mut Ch) -> Outcome {
     check_text(ctx, &text, crate::checks::c02::step_budget(ctx.tier))
 }
 
+/// "Vanishing dependency": an un-annotated parameter `w` meets, under later binders, a variable
+/// whose annotation is a non-normal type that mentions one of those binders and loses it under
+/// normalisation (`K T y` with `K = (t : type) => (n : int) => t`): `w` can be given the type `T`,
+/// but only the normalised one. The function is then applied to an argument of type `T` or of
+/// another type; whatever is accepted must produce a value of the reported type.
+fn vanishing_program(ch: &mut Ch) -> String {
+    let (t, good, bad) = [("int", "7", "true"), ("bool", "false", "3"), ("int -> int", "((q : int) => q + 1)", "2")][ch.pick(3)];
+    let k_inline = "((kt : type) => (kn : int) => kt)";
+    let (prefix, k) = if ch.chance(1, 2) { ("konst = (kt : type) => (kn : int) => kt\n".to_owned(), "konst") } else { (String::new(), k_inline) };
+    let w = ["w", "(w : _)"][ch.pick(2)];
+    let extra = ch.chance(1, 3);
+    let dep = if ch.chance(1, 4) { "(y + 1)" } else { "y" };
+    let cond = ["y == 0", "true", "false", "y < 1"][ch.pick(4)];
+    let (a, b) = if ch.chance(1, 2) { ("z", "w") } else { ("w", "z") };
+    let first = if ch.chance(1, 2) { good } else { bad };
+    let third = if ch.chance(3, 4) { good } else { bad };
+    let mut f = format!("{w} => (y : int) => ");
+    let mut args = format!("{first} {}", ch.pick(3));
+    if extra {
+        f.push_str("(u : bool) => ");
+        args.push_str(" true");
+    }
+    f.push_str(&format!("(z : {k} ({t}) {dep}) => if {cond} then {a} else {b}"));
+    args.push_str(&format!(" {third}"));
+    let call = format!("({f}) {args}");
+    match ch.pick(3) {
+        0 => format!("{prefix}{call}"),
+        1 => format!("{prefix}r = {call}\nr"),
+        _ => format!("{prefix}r : ({t}) = {call}\nr"),
+    }
+}
+
+fn vanishing_case(ctx: &Ctx, ch: &mut Ch) -> Outcome {
+    let text = vanishing_program(ch);
+    ctx.class("directed: un-annotated parameter against a type that mentions a later binder which disappears under normalisation");
+    check_text(ctx, &text, crate::checks::c02::step_budget(ctx.tier))
+}
+
 #[derive(Clone, Copy, PartialEq, Eq, Debug)]
 pub enum Base {
     Int,
@@ -248,7 +286,7 @@ pub fn def(tier: Tier) -> CheckDef {
     CheckDef {
         id: "C04",
         level: "exploration",
-        rule: "type-directed generated programs (plain, annotation-erased, and perturbed by one type-breaking mutation or variable swap - the accepted ones count) over result types int, bool, type, non-dependent and dependent function types, types produced by type-level functions and conditionals, and types mentioning definition groups; each accepted program is run with gram's `step` loop and the value v and the reported type T are compared: by shape (int => literal, bool => true/false, function type => function with the same implicit flag, type => a type former) and by the independent checker (R-core infers a type for v, which must be convertible with T); plus (exhaustive) an identity function annotated `(b : bool) -> (x : int) -> T1 -> T2` for every pair of small type expressions T1, T2 and applied at constants: conversion between computed types put to use; non-trivial = T is not a bare base type, or evaluation took >= 5 steps; distinct by text",
+        rule: "directed programs in which an un-annotated parameter meets a variable whose written type mentions a later binder that disappears under normalisation (the function then applied at the right and at a wrong type), and type-directed generated programs (plain, annotation-erased, and perturbed by one type-breaking mutation or variable swap - the accepted ones count) over result types int, bool, type, non-dependent and dependent function types, types produced by type-level functions and conditionals, and types mentioning definition groups; each accepted program is run with gram's `step` loop and the value v and the reported type T are compared: by shape (int => literal, bool => true/false, function type => function with the same implicit flag, type => a type former) and by the independent checker (R-core infers a type for v, which must be convertible with T); plus (exhaustive) an identity function annotated `(b : bool) -> (x : int) -> T1 -> T2` for every pair of small type expressions T1, T2 and applied at constants: conversion between computed types put to use; non-trivial = T is not a bare base type, or evaluation took >= 5 steps; distinct by text",
         assumptions: vec!["values or types that still contain unresolved holes are outside the explicit checker's domain (counted, not judged)"],
         idle_limit_s: 60,
         needs_cli: false,
@@ -274,6 +312,15 @@ pub fn def(tier: Tier) -> CheckDef {
                 rounds: 1,
                 run: Box::new(|ctx, _| coercions_part(ctx)),
                 replay: None,
+            },
+            Part {
+                name: "vanishing-dependency",
+                rounds: 1,
+                run: Box::new(|ctx, r| ctx.prop("vanishing-dependency", r, 300, 30, vanishing_case)),
+                replay: Some(Box::new(|ctx, inp| match inp {
+                    ReplayInput::Choices(c) => vanishing_case(ctx, &mut Ch::new(c)),
+                    _ => Err(Failure::new("this part replays from choices", "")),
+                })),
             },
             Part {
                 name: "generated",
